@@ -31,7 +31,7 @@ type Cfg struct {
 
 // ExtNames is the extension axis of the lattice.
 var ExtNames = []string{"core", "table", "strike", "linkify", "tasklist", "gfm", "deflist", "footnote",
-	"typographer", "cjk-simple", "cjk-css3", "cjk-esc", "all", "all+cjk", "custom"}
+	"typographer", "cjk-simple", "cjk-css3", "cjk-esc", "all", "all+cjk", "custom", "custom2"}
 
 func (c Cfg) String() string {
 	s := c.Ext
@@ -195,6 +195,8 @@ func (c Cfg) Extenders() []goldmark.Extender {
 		return append(all, extension.CJK)
 	case "custom":
 		return CustomExtenders()
+	case "custom2":
+		return Custom2Extenders()
 	}
 	panic("unknown ext " + c.Ext)
 }
@@ -224,6 +226,29 @@ func CustomExtenders() []goldmark.Extender {
 			extension.LeftDoubleQuote: "&laquo;", extension.RightDoubleQuote: "&raquo;", extension.EnDash: "&ndash;&ndash;", extension.Ellipsis: "&hellip;.",
 		})),
 		extension.NewCJK(extension.WithEastAsianLineBreaks(extension.EastAsianLineBreaksCSS3Draft), extension.WithEscapedSpace()),
+	}
+}
+
+// Custom2Extenders is a second option-bearing configuration, using the options CustomExtenders does not: an id-prefix
+// function, an e-mail and a URL regular expression for Linkify, substitutions switched off (nil entries), the attribute
+// method for table alignment, simple East Asian line breaks.
+func Custom2Extenders() []goldmark.Extender {
+	return []goldmark.Extender{
+		extension.NewTable(extension.WithTableCellAlignMethod(extension.TableCellAlignAttribute)),
+		extension.NewLinkify(
+			extension.WithLinkifyURLRegexp(regexp.MustCompile(`^(?:http|https|ftp)://[-a-zA-Z0-9@:%._+~#=/?&]+[a-zA-Z0-9/]`)),
+			extension.WithLinkifyEmailRegexp(regexp.MustCompile(`^[a-z0-9.]+@[a-z0-9]+\.[a-z]{2,}`)),
+		),
+		extension.TaskList,
+		extension.Strikethrough,
+		extension.NewFootnote(extension.WithFootnoteIDPrefixFunction(func(n ast.Node) []byte {
+			return []byte("doc" + n.Kind().String()[:1] + "-")
+		})),
+		extension.DefinitionList,
+		extension.NewTypographer(extension.WithTypographicSubstitutions(map[extension.TypographicPunctuation][]byte{
+			extension.LeftSingleQuote: nil, extension.RightSingleQuote: nil, extension.EmDash: []byte("&#8212;"), extension.LeftAngleQuote: []byte("&#171;"), extension.Apostrophe: nil,
+		})),
+		extension.NewCJK(extension.WithEastAsianLineBreaks(extension.EastAsianLineBreaksSimple)),
 	}
 }
 
